@@ -550,6 +550,11 @@ func (e *Env) binary(x *EBinary) (Val, error) {
 		fallthrough
 	case "-", "*":
 		if a.S != SInt || b.S != SInt {
+			if a.S == SF64 && b.S == SF64 {
+				if op := map[string]string{"+": "f.add", "-": "f.sub", "*": "f.mul", "/": "f.div"}[x.Op]; op != "" {
+					return Val{T: sx(op, a.T, b.T), S: SF64, Ty: a.Ty}, nil
+				}
+			}
 			return Val{}, fmt.Errorf("arithmetic on %s and %s in %s", a.S, b.S, x)
 		}
 		return Val{T: sx(x.Op, a.T, b.T), S: SInt, Ty: types.Typ[types.Int]}, nil
